@@ -108,6 +108,7 @@ type prioResult struct {
 	PriosWith2      int
 	Log             []string
 	Aborted         string
+	NilAdds         int
 	OldReAdds       int
 	Stolen          int
 	NeverEndedHeld  bool
@@ -150,24 +151,25 @@ type prioExec struct {
 	abort     chan struct{}
 	wg        sync.WaitGroup
 
-	outClosed           bool
-	errClosed           bool
-	hasThief            bool
-	unstarved           bool // a Starved scenario whose removal has returned: liveness oracles apply from here on
-	satPaused           bool // saturation: a removal has changed the shares, the per-receive bound is off until the next checkpoint
-	ignoreErr           bool // this client never reads Err(): for it the closure of Output() is the termination
-	termSeen            bool
-	stopIssued          bool
-	stopRet             atomic.Bool
-	runningAtStopReturn atomic.Int64
-	blockedAtStopReturn atomic.Value // string: stack of a library goroutine found blocked when a Stop() call returned
-	gracefulOn          bool
-	gracefulRt          atomic.Bool
-	gracefulSeen        bool
-	censusAtGraceful    bool
-	faultSeen           bool
-	failed              bool
-	ctls                []*ctlCall
+	outClosed               bool
+	errClosed               bool
+	hasThief                bool
+	unstarved               bool // a Starved scenario whose removal has returned: liveness oracles apply from here on
+	satPaused               bool // saturation: a removal has changed the shares, the per-receive bound is off until the next checkpoint
+	ignoreErr               bool // this client never reads Err(): for it the closure of Output() is the termination
+	termSeen                bool
+	stopIssued              bool
+	stopRet                 atomic.Bool
+	runningAtStopReturn     atomic.Int64
+	blockedAtGracefulReturn atomic.Value // string: the same at the return of GracefulStop()
+	blockedAtStopReturn     atomic.Value // string: stack of a library goroutine found blocked when a Stop() call returned
+	gracefulOn              bool
+	gracefulRt              atomic.Bool
+	gracefulSeen            bool
+	censusAtGraceful        bool
+	faultSeen               bool
+	failed                  bool
+	ctls                    []*ctlCall
 
 	mon *divMonitor
 }
@@ -778,13 +780,13 @@ func (x *prioExec) do(op POp) {
 	x.ctl.progress.Add(1)
 	switch op.K {
 	case "W":
-		if in := x.inputs[op.P]; in != nil && !in.closeEnq {
+		if in := x.inputs[op.P]; in != nil && !in.closeEnq && !in.isNil {
 			in.write(op.N)
 			x.res.Written += op.N
 			x.logf("write %d items to priority %d", op.N, op.P)
 		}
 	case "C":
-		if in := x.inputs[op.P]; in != nil {
+		if in := x.inputs[op.P]; in != nil && !in.isNil {
 			in.closeLater()
 			x.logf("close input %d", op.P)
 		}
@@ -1133,7 +1135,14 @@ func (x *prioExec) addInput(op POp) {
 	x.chans = append(x.chans, in)
 	old := x.inputs[op.P]
 	x.inputs[op.P] = in
-	in.startWriter(x.abort, &x.wg)
+	if op.Mode == "nil-channel" {
+		// AddInput(nil, p): a nil channel is a channel - nothing can be read from it, and it
+		// replaces whatever was registered for p like any other channel does
+		in.ch, in.isNil = nil, true
+		x.res.NilAdds++
+	} else {
+		in.startWriter(x.abort, &x.wg)
+	}
 	c := &ctlCall{op: "AddInput", p: op.P, in: in, old: old}
 	x.ctls = append(x.ctls, c)
 	x.res.CtlOps++
@@ -1260,6 +1269,14 @@ func (x *prioExec) callGraceful() {
 	go func() {
 		defer x.wg.Done()
 		x.sys.graceful()
+		// C19: at the instant GracefulStop() returns - also when it was cut short by Stop() or a
+		// cancel - nothing the discipline started may still be blocked somewhere
+		for _, g := range censusBubble(x.ctl.bubbleID.Load()) {
+			if blockedState(g.State) {
+				x.blockedAtGracefulReturn.CompareAndSwap(nil, g.Text)
+				break
+			}
+		}
 		x.gracefulRt.Store(true)
 	}()
 }
@@ -1545,6 +1562,9 @@ func runPrioV(sc PrioScenario, ctl *bubbleCtl) *prioResult {
 		x.epilogue()
 	}
 	x.census()
+	if v := x.blockedAtGracefulReturn.Load(); v != nil {
+		x.fail("C19", "blocked-goroutine-at-graceful-return:"+x.sc.Ver, "GracefulStop() returned while a goroutine started by the discipline was blocked: %s", firstLines(v.(string), 10))
+	}
 	x.mon.report()
 	res.DivCalls = int(x.mon.calls.Load())
 	res.FaultHit = x.mon.faulted.Load()
